@@ -31,27 +31,33 @@ def leave : Stack → Stack
 mutual
 inductive Act where
   | call (body : Acts)        -- enter; defer leave; body
-  | panicHere                 -- JS exception, interrupt panic, host panic … anything that unwinds
+  | panicHere                 -- JS exception, host panic … anything that unwinds and a script try may catch
+  | haltHere                  -- the panic of a function received on the Interrupt channel (runtime.go `interrupt`
+                              -- notes it in `rt.halting`; tryCatchEvaluate then returns without recovering)
   | catching (body : Acts)    -- try { body } catch …, or a host function swallowing the error of Value.Call
 inductive Acts where
   | nil
   | cons (a : Act) (rest : Acts)
 end
 
-inductive Outcome | done | panicked | rangeError deriving DecidableEq, Repr
+inductive Outcome | done | panicked | rangeError | halted deriving DecidableEq, Repr
 
 /- run one action; returns the stack afterwards and how it ended.  `defer leaveScope()` runs on
    every exit of the call. -/
 mutual
 def runAct (limit : Nat) : Act → Stack → Stack × Outcome
   | .panicHere, s => (s, .panicked)
+  | .haltHere, s => (s, .halted)
   | .call body, s =>
     match enter limit s with
     | .rangeError => (s, .rangeError)                 -- the guard panics before the scope is pushed
     | .ok s' =>
       let (s'', out) := runActs limit body s'
       (leave s'', out)                                -- deferred leave, whatever `out` is
-  | .catching body, s => ((runActs limit body s).1, .done)   -- the abnormal exit ends here; execution goes on
+  | .catching body, s =>
+    match runActs limit body s with
+    | (s', .halted) => (s', .halted)                  -- rt.halting: the deferred recover is skipped
+    | (s', _) => (s', .done)                          -- the abnormal exit ends here; execution goes on
 def runActs (limit : Nat) : Acts → Stack → Stack × Outcome
   | .nil, s => (s, .done)
   | .cons a rest, s =>
@@ -64,6 +70,11 @@ end
 def nest : Nat → Act
   | 0 => .call .nil
   | d+1 => .call (.cons (nest d) .nil)
+
+/-- a halt underneath `n` layers of try-inside-call-inside-try -/
+def haltNest : Nat → Act
+  | 0 => .haltHere
+  | n+1 => .catching (.cons (.call (.cons (.catching (.cons (haltNest n) .nil)) .nil)) .nil)
 
 /-- `k` overflows, each caught where it happened to be (depth `c` below the current scope) -/
 def caughtOverflows (limit : Nat) : Nat → Acts
